@@ -32,14 +32,14 @@ def run(chk):
         chk.mc('MC_CopyLoad', 'MC_CopyLoad_q5.cfg', timeout=5000)     # build-only operands, one level deeper
     # two managers, every receiver order: model-checked, then its paths replayed into two real
     # managers through real pickle / JSON files, tables compared after every action
-    sh_graph = common.stage_copyload_graph(chk, limit=2500 if q else 14000)
+    sh_graph = common.stage_copyload_graph(chk, limit=chk.th(2500, 14000))
     r = tlcrun.model_check('MC_CopyLoad', 'MC_CopyLoad_neg.cfg', 'neg', timeout=600)
     if 'is violated' not in r['out']:
         raise tlcrun.MachineryError('negative configuration MC_CopyLoad_neg was not refuted')
     chk.extra['negative_configurations_refuted'] = ['MC_CopyLoad_neg.cfg (JSON loader keeps its temporary references)']
     tmp = os.path.join(chk.dir, 'tmp')
     n = tlcrun.NCPU
-    per = 12 if q else 600
+    per = chk.th(12, 600)
     tasks = [dict(shard=chk.shard('x_c12_%d' % i), tid0=12000000 + i * per,
                   seed=chk.seed * 17 + i, ntraces=per, tmpdir=tmp)
              for i in range(n)]
